@@ -57,6 +57,7 @@ type c03Run struct {
 	Vars  map[string]*vdump `json:"vars"`
 	Code  []string          `json:"code"`
 	Spans [][2]int64        `json:"spans"`
+	Off   int               `json:"off"` // parser's final offset
 }
 
 // custom dice used by the C03 / C17 checks: `E<digits>` (regex, value 2n) and `C<digits>T<digits>` (stream parser; value a+b;
@@ -117,6 +118,7 @@ func c03Once(src, pre string, flags []bool, hi, lo uint64, custom bool) (r c03Ru
 		func() {
 			defer func() { _ = recover() }()
 			r.Code = opsSig(vm.VerifCode())
+			r.Off = vm.VerifParsedOffset()
 		}()
 		for _, s := range vm.DetailSpans {
 			r.Spans = append(r.Spans, [2]int64{int64(s.Begin), int64(s.End)})
@@ -189,6 +191,9 @@ func init() {
 					}
 					sort.Strings(l)
 					row["leftover_ops"] = l
+					// is this exactly the left-over code the pinned reference copy produces for this input?
+					rc, roff, rok := refCompile(string(raw), string(pre), in.Flags, in.Custom)
+					row["ref_same_code"] = rok && reflect.DeepEqual(rc, a.Code) && roff == a.Off
 				}
 			}
 			emit(row)
